@@ -59,7 +59,7 @@ class Protocol(Component):
             id = self.__nid
             self.__nid += 1
 
-            packet = dump_event(event, id).encode('utf-8') + DELIMITER
+            packet = dump_event(event, id).replace('~', '\\u007e').encode('utf-8') + DELIMITER
             self.__send(packet)
 
             if not getattr(event, 'node_without_result', False):
@@ -73,7 +73,7 @@ class Protocol(Component):
     def send_result(self, id, value):
         value.node_call_id = id
         value.node_sock = self.__sock
-        packet = dump_value(value).encode('utf-8') + DELIMITER
+        packet = dump_value(value).replace('~', '\\u007e').encode('utf-8') + DELIMITER
         self.__send(packet)
 
     def __send(self, packet):
